@@ -53,8 +53,44 @@ fn main() {
         let pocket = rng.cards(2, full & !public);
         (pocket, public)
     };
-    for _ in 0..nriver {
-        let (pocket, public) = gen_obs(&mut rng, 5);
+    // boards that are themselves a made hand: straight flush (incl. the wheel and the royal), quads
+    // with any kicker, broadway / a straight with no three cards of a suit, a full house — with a
+    // pocket that holds a card of the board's suit above it (with and without a gap), below it, or none
+    let mut special: Vec<(u64, u64)> = vec![];
+    {
+        let ranks: Vec<u64> = (0..13u64).filter(|r| (0xFu64 << (4 * r)) & full != 0).collect();
+        let lo = ranks[0];
+        for suit in 0..4u64 {
+            let card = |r: u64| 1u64 << (4 * r + suit);
+            let mut runs: Vec<Vec<u64>> = vec![];
+            for start in lo..=8 { runs.push((start..start + 5).collect()); }
+            runs.push(vec![12, lo, lo + 1, lo + 2, lo + 3]); // the deck's wheel
+            for run5 in runs {
+                let board = run5.iter().fold(0u64, |m, r| m | card(*r));
+                let suited_rest: Vec<u64> = ranks.iter().copied().filter(|r| board & card(*r) == 0).collect();
+                for r in suited_rest.iter().take(8) {
+                    let other = rng.cards(1, full & !board & !card(*r));
+                    special.push((card(*r) | other, board));
+                }
+                special.push((rng.cards(2, full & !board), board));
+            }
+        }
+        for _ in 0..40 {
+            // quads + kicker, full house, straight on a rainbow-ish board
+            let r1 = ranks[rng.below(ranks.len() as u64) as usize];
+            let r2 = loop { let r = ranks[rng.below(ranks.len() as u64) as usize]; if r != r1 { break r; } };
+            let quads = (0xFu64 << (4 * r1)) | rng.cards(1, 0xFu64 << (4 * r2));
+            special.push((rng.cards(2, full & !quads), quads));
+            let boat = rng.cards(3, 0xFu64 << (4 * r1)) | rng.cards(2, 0xFu64 << (4 * r2));
+            special.push((rng.cards(2, full & !boat), boat));
+            let start = lo + rng.below(9 - lo);
+            let straight = (start..start + 5).fold(0u64, |m, r| m | 1u64 << (4 * r + rng.below(4)));
+            special.push((rng.cards(2, full & !straight), straight));
+        }
+    }
+    let nspecial = special.len();
+    for t in 0..nriver + nspecial {
+        let (pocket, public) = if t < nspecial { special[t] } else { gen_obs(&mut rng, 5) };
         let o = obs(pocket, public);
         run.evaluations += 1;
         let eq = match catch(|| o.equity()) { Some(e) => e, None => { run.line(&format!("equity {deck} {pocket} {public}"), "panic"); run.fail("equity-panics", &format!("{pocket} {public}"), "a value", "panic"); continue; } };
